@@ -42,6 +42,8 @@ FAMILIES = {
     # as H3 over one terminal, plus a later symbol repeated around the terminal (N N a, N a N), two later symbols and
     # right recursion behind a later symbol (what is nullable when a nullable symbol occurs twice in a production)
     'N3': (3, ['a'], 2, 3, 2, 0, 'rep'),
+    # FOLLOW focused: A -> B t; B -> one alternative; later symbols only, also as N t M and t M (nullable last symbol)
+    'F4': (4, ['a', 'b'], 2, 3, 3, 0, 'follow'),
 }
 
 
@@ -193,6 +195,17 @@ def render(toks, kw, salt=0):
     return text, [{'n': t, 'v': l.strip('"')} for t, l in zip(toks, lex)]      # value of a quoted word: without the quotes
 
 
+def render_lines(toks, salt=0):
+    """the keyword-tokenizer text of render() as a list of lines, one token per line and no line ends in the items
+    (the documented Iterable[str] form of the text): the break between two lines separates tokens"""
+    # words that would be ONE word if the lines were glued together: mm|mm, kw|mm, kww|kwd, ...
+    lines = [{'a': 'mm', 'b': ('kw', '"x"')[(i + salt) % 2], 'c': 'kww', 'd': 'kwd', 'e': 'kwe'}[t] for i, t in enumerate(toks)]
+    etoks = [{'n': t, 'v': l.strip('"')} for t, l in zip(toks, lines)]
+    if salt % 2:
+        lines.append('# x\x0c y kw')
+    return lines, etoks
+
+
 def all_inputs(terms, k):
     out = []
     for n in range(k + 1):
@@ -301,6 +314,26 @@ def run_grammar(job):
             if r == 'tree':
                 obs.append({'g': gdesc, 'toks': etoks, 'res': r, 'tree': tj, 'exact': bool(exact),
                             'smart': smart, 'kw': kw, 'tn': toks})
+            lines, etoks2 = render_lines(toks, salt=len(toks)) if kw and 2 <= len(toks) <= 3 else ([''], None)
+            if etoks2 is not None:
+                # the same tokens given as a list of lines (one token per line)
+                n += 1
+                signal.setitimer(signal.ITIMER_REAL, budget)
+                try:
+                    t2 = p.parse_counted(list(lines) if len(toks) == 2 else iter(lines), STEP_BUDGET, do_cleanup=False)
+                    r2, tj2 = 'tree', tree_json(t2)
+                except ParsingError:
+                    r2, tj2 = 'ParsingError', None
+                except Exception as e:
+                    r2, tj2 = 'exc:' + type(e).__name__, None
+                finally:
+                    signal.setitimer(signal.ITIMER_REAL, 0)
+                if r2 != r:
+                    viol.append(('C01', 'the tokens %s given as the list of lines %r: %s, given as the text %r: %s (grammar start=%s prods=%s smart=%s)' % (
+                        toks, lines, r2, text, r, start, prods, smart), pcase, []))
+                elif r2 == 'tree':
+                    obs.append({'g': gdesc, 'toks': etoks2, 'res': r2, 'tree': tj2, 'exact': bool(exact),
+                                'smart': smart, 'kw': kw, 'tn': toks, 'aslist': True})
         # parse(..., start_symbol_name=X): whatever comes back must be a derivation from X (C01); whether a
         # sentence of X is accepted is not judged (the table is built for the constructor's start symbol)
         if not case['leftrec'] and not noskip and not kw:
@@ -383,7 +416,7 @@ def explore(ctx, want):
     if want == 'C03':
         fams = fams + ['R3', 'N3']
     if want == 'C02':
-        fams = fams + ['W6', 'H3']
+        fams = fams + ['W6', 'H3', 'F4']
     total_parses = 0
     ngram = 0
     nobs = 0
